@@ -1,20 +1,21 @@
 (* C09 — concrete witnesses evaluated in the faithful model (vm_compute):
-   the function-value defect (DESIGN.md §7 #2) and non-vacuity programs. *)
+   the regression example for the repaired function-value defect and non-vacuity programs. *)
 From NV Require Import Base.Show VM.Value VM.Ast VM.Bytecode VM.Compile VM.Machine VM.RefSem VM.Exec.
 Open Scope string_scope.
 
-(* fn f(x) = x + 1 ; let g = f ; fn f(x) = x * 100 ; g(1) *)
+(* fn f(x) = x + 1 ; let g = f ; fn f(x) = x * 100 ; g(1)
+   Regression example for the repaired finding C09-funref-rebound: the function value g
+   keeps denoting the first f (before the fix the machine computed 100). *)
 Definition funref_witness : program Z := [
   SFn "f" ["x"] [] (EBin BAdd (EIdent "x") (EScalar 1%Z));
   SLet "g" (EIdent "f");
   SFn "f" ["x"] [] (EBin BMul (EIdent "x") (EScalar 100%Z));
   SExpr (ECallable (EIdent "g") [EScalar 1%Z])].
 
-Lemma funref_witness_refutes :
+Lemma funref_witness_agrees :
   compile_ok (compile (procs zops) funref_witness) = true
-  /\ run_static zops 20 funref_witness = Ok ([], Some (VQ 2%Z))
-  /\ Machine.run zops (compile (procs zops) funref_witness) 20 = Ok ([], Some (VQ 100%Z))
-  /\ run_checked zops 20 funref_witness = Stale.
+  /\ run_ref zops 20 funref_witness = Ok ([], Some (VQ 2%Z))
+  /\ Machine.run zops (compile (procs zops) funref_witness) 20 = Ok ([], Some (VQ 2%Z)).
 Proof. vm_compute. repeat split; reflexivity. Qed.
 
 (* a program exercising every clause of the property at once *)
@@ -34,6 +35,26 @@ Definition demo : program Z := [
 
 Lemma demo_runs :
   compile_ok (compile (procs zops) demo) = true
-  /\ run_checked zops 60 demo = Ok (["v=[10, 12]!"], Some (VQ 12%Z))
+  /\ run_ref zops 60 demo = Ok (["v=[10, 12]!"], Some (VQ 12%Z))
   /\ Machine.run zops (compile (procs zops) demo) 400 = Ok (["v=[10, 12]!"], Some (VQ 12%Z)).
 Proof. vm_compute. repeat split; reflexivity. Qed.
+
+(* let z = [1] ; if false then len([len(z), len(z), ... 6554 times]) else 7
+   The then-branch is 6554 * 10 + 10 = 65550 bytes: its jump offsets do not fit 16 bits.
+   Regression example for the repaired finding C09-jump-offset-wrap: the compiler rejects
+   the program (CodeTooLarge) instead of silently truncating the offsets; before the
+   repair the implementation panicked on it (the else value 7 was never produced). *)
+Definition wrap_witness : program Z := [
+  SForeign "len";
+  SLet "z" (EList [EScalar 1%Z]);
+  SExpr (ECond (EBool false)
+               (ECall "len" [EList (repeat (ECall "len" [EIdent "z"]) 6554)])
+               (EScalar 7%Z))].
+
+Lemma wrap_witness_rejected :
+  code_too_large (compile (procs zops) wrap_witness) = true
+  /\ compile_ok (compile (procs zops) wrap_witness) = false.
+Proof. vm_compute. split; reflexivity. Qed.
+
+Lemma wrap_witness_reference : run_ref zops 10 wrap_witness = Ok ([], Some (VQ 7%Z)).
+Proof. vm_compute. reflexivity. Qed.
